@@ -13,6 +13,12 @@ Module F := WebpGen.Fields.
 Definition when (b : bool) (l : list string) : list string := if b then l else [].
 Definition inter (a b : list string) : list string := filter (fun x => mem x b) a.
 Definition subset (a b : list string) : bool := forallb (fun x => mem x b) a.
+Fixpoint dedup (l : list string) : list string :=
+  match l with
+  | [] => []
+  | x :: r => if mem x r then dedup r else x :: dedup r
+  end.
+
 
 Lemma subset_In a b x : subset a b = true -> In x a -> In x b.
 Proof. unfold subset. rewrite forallb_forall. intros H Hi. apply mem_In. now apply H. Qed.
@@ -385,10 +391,46 @@ Definition api_return_roots : list string :=
    "root.encodeLossyWithAlpha#0"; "root.encodeLossyWithAlpha#1";
    "root.encodeFrameForAnimation#0"; "root.simpleEncodeForAnimation#0"].
 
+(** the return sites reachable from a set of roots through "call:" origins *)
+Fixpoint reach (fuel : nat) (sites : list (string * string)) (front : list string) : list string :=
+  match fuel with
+  | O => front
+  | S n =>
+    let next := flat_map (fun p => if mem (fst p) front && String.prefix "call:" (snd p)
+                                   then [substring 5 (String.length (snd p) - 5) (snd p)] else []) sites in
+    let add := filter (fun k => negb (mem k front)) next in
+    match add with
+    | [] => front
+    | _ => reach n sites (front ++ dedup add)
+    end
+  end.
+
+Definition codec_sites (sites : list (string * string)) : list (string * string) :=
+  let r := reach 30 sites api_return_roots in filter (fun p => mem (fst p) r) sites.
+
+(** for the whole public API (every exported function or method of the non-internal
+    packages that returns a reference): no returned value aliases a package-level
+    variable or pooled storage.  (Returning the caller's own data - a Demuxer's views of
+    the bytes it was given, an AnimDecoder's canvas - is the documented behaviour of those
+    types and is allowed here; it is not allowed for the codec results above.) *)
+Definition api_origin_ok (k : string) : bool :=
+  negb (String.prefix "global:" k) && negb (String.prefix "pooled:" k).
+
 Lemma returned_values_fresh :
-  returned_values_fresh_b WebpGen.Owner.owner_sites = true /\
+  returned_values_fresh_b (codec_sites WebpGen.Owner.owner_sites) = true /\
   forallb (fun r => existsb (fun q => String.eqb (fst q) r) WebpGen.Owner.owner_sites) api_return_roots = true.
 Proof. vm_compute. repeat apply conj. all: reflexivity. Qed.
+
+Lemma api_returns_no_global_state :
+  forallb (fun p => api_origin_ok (snd p)) WebpGen.Owner.owner_sites = true /\
+  forallb (fun r => existsb (fun q => String.prefix r (fst q)) WebpGen.Owner.owner_sites)
+          WebpGen.Owner.api_reference_returning = true /\
+  mem "sharpyuv.GetConversionMatrix" WebpGen.Owner.api_reference_returning = true.
+Proof. vm_compute. repeat apply conj. all: reflexivity. Qed.
+
+Example api_check_rejects_global_alias :
+  api_origin_ok "global:sharpyuv.predefinedMatrices" = false /\ api_origin_ok "param:d" = true.
+Proof. vm_compute. split; reflexivity. Qed.
 
 (** the check is not vacuous: it rejects a function that returns pooled storage, hands
     back a parameter, or calls a function that is not listed *)
@@ -411,12 +453,6 @@ Proof. vm_compute. repeat apply conj. all: reflexivity. Qed.
     synchronisation objects are exactly the modelled pools and Once guards.  So no call
     can observe a global table in two different states: lazily mutated tables would be
     history dependence outside the pool model. *)
-Fixpoint dedup (l : list string) : list string :=
-  match l with
-  | [] => []
-  | x :: r => if mem x r then dedup r else x :: dedup r
-  end.
-
 Definition global_write_ok (w : string * (string * (string * string))) : bool :=
   let ctx := snd (snd (snd w)) in String.eqb ctx "init" || String.eqb ctx "once".
 
